@@ -337,6 +337,10 @@ impl HSys {
         if !gen_tables::HANDLE_METHODS.contains(&name.as_str()) {
             return None;
         }
+        // the quorums this file can build (Sys::quorum) are the variants of the source
+        if gen_tables::QUORUM != ["All", "One", "N"] || gen_tables::COMMANDS.len() != 9 || gen_tables::EVENTS.len() != 10 {
+            return None;
+        }
         let q = |r: Result<litep2p::protocol::libp2p::kademlia::QueryId, ()>| match r {
             Ok(id) => [2, id.0 as u64],
             Err(()) => [0, 0],
